@@ -1,7 +1,8 @@
 import Drivers.Proto
 import St4sd.Model.Repeat
+import St4sd.Model.RepeatSub
 /-! Model driver for property C13 (repeating-engine poll protocol). -/
-open Lean Proto St4sd.Repeat
+open Lean Proto St4sd.Repeat St4sd.RepeatSub
 
 def getBoolD (j : Json) (k : String) (d : Bool) : Bool :=
   match j.getObjVal? k with
@@ -65,9 +66,116 @@ def summary (s : St) : List (String × Json) :=
       jobj [("afterFinal", jbool (!s.hasOutput || decide (s.lastOutput < e.launch))), ("pdws", jbool e.pdws)])),
    ("cause", causeName s.cause), ("pollsFin", jnat s.pollsFin), ("books", jnat s.books)]
 
+/-! composed scripts: subscription of ComponentState.stageIn + poll protocol -/
+
+def parseCEv (s : String) : Except String CEv :=
+  if s == "stagein" then pure (.sub .stageIn)
+  else if s.startsWith "pf:" then
+    match (s.drop 3).toString.toNat? with
+    | some n => pure (.sub (.pfin n))
+    | none => throw s!"bad event {s}"
+  else if s.startsWith "px:" then
+    match (s.drop 3).toString.toNat? with
+    | some n => pure (.sub (.pexit n))
+    | none => throw s!"bad event {s}"
+  else match s with
+    | "out" => pure (.x .out) | "kill" => pure (.x .kill) | "die" => pure (.x .die) | "adv" => pure (.x .adv)
+    | _ => throw s!"unknown composed event {s}"
+
+def getCEvs (j : Json) (k : String) : Except String (List CEv) :=
+  match j.getObjVal? k with
+  | .ok (Json.arr a) => a.toList.mapM (fun x => do parseCEv (← x.getStr?))
+  | _ => pure []
+
+def parseCIter (j : Json) : Except String CIter := do
+  let o ← match j.getObjVal? "outcome" with
+    | .ok (Json.str s) => parseOutcome s
+    | _ => pure Outcome.ok
+  return { gap := ← getCEvs j "gap", s0 := ← getCEvs j "s0", s1 := ← getCEvs j "s1", s2 := ← getCEvs j "s2",
+           s3 := ← getCEvs j "s3", s4 := ← getCEvs j "s4", out := o }
+
+def subOpName : SubOp → String
+  | .stageIn => "stagein" | .pfin p => s!"pf:{p}" | .pexit p => s!"px:{p}"
+def copName : COp → String
+  | .ev (.sub o) => "s:" ++ subOpName o
+  | .ev (.x e) => "e:" ++ evName e.toEv
+  | .eng o => "g:" ++ outName o
+def parseCOp (s : String) : Except String COp :=
+  if s.startsWith "s:" then do
+    match ← parseCEv (s.drop 2).toString with
+    | .sub o => return .ev (.sub o)
+    | _ => throw s!"bad op {s}"
+  else if s.startsWith "e:" then do
+    match ← parseCEv (s.drop 2).toString with
+    | .x e => return .ev (.x e)
+    | _ => throw s!"bad op {s}"
+  else if s.startsWith "g:" then do return .eng (← parseOutcome (s.drop 2).toString)
+  else throw s!"bad op {s}"
+
+def subJson (s : Sub) : Json :=
+  jobj [("notified", jbool s.notified), ("stagedIn", jbool s.stagedIn), ("count", jnat s.count),
+        ("waiting", jnat s.waiting.length),
+        ("finished", jarr ((s.finished.toArray.qsort (· < ·)).toList.map jnat))]
+
+/-- (event, notified after it) for every subscription operation, in the order of time -/
+def notifLog : Sub → List SubOp → List Json
+  | _, [] => []
+  | s, o :: r =>
+    let s' := subStep s o
+    jarr [jstr (subOpName o), jbool s'.notified] :: notifLog s' r
+
+/-- the block of subscription operations up to and including the next one that fires -/
+def takeBlock : Sub → List SubOp → List COp → Sub × List SubOp × List COp
+  | s, [], acc => (s, [], acc)
+  | s, o :: q, acc =>
+    let acc := acc ++ [COp.ev (.sub o)]
+    if fires s o then (subStep s o, q, acc) else takeBlock (subStep s o) q acc
+
+/-- weave the subscription operations of a script back into the flat engine history that its translation
+produced (each `fin` stands for the block of subscription operations ending with the one that fires; what
+is left over comes last).  Glue: the result is checked by running `cexec` on it. -/
+def weave (s : Sub) (q : List SubOp) : List Op → List COp
+  | [] => q.map (fun o => COp.ev (.sub o))
+  | Op.eng o :: r => COp.eng o :: weave s q r
+  | Op.env .fin :: r =>
+    let (s', q', ops) := takeBlock s q []
+    ops ++ weave s' q' r
+  | Op.env .out :: r => COp.ev (.x .out) :: weave s q r
+  | Op.env .kill :: r => COp.ev (.x .kill) :: weave s q r
+  | Op.env .die :: r => COp.ev (.x .die) :: weave s q r
+  | Op.env .adv :: r => COp.ev (.x .adv) :: weave s q r
+
+def subOpsOf (es : List CEv) : List SubOp :=
+  es.filterMap fun e => match e with | .sub o => some o | _ => none
+
 def handle (j : Json) : Except String Json := do
   let op ← getStr j "op"
   match op with
+  | "cscript" =>
+    let cfg ← parseCfg j
+    let refs ← getNatList j "refs"
+    let pre ← getCEvs j "pre"
+    let its ← (← getArr j "iters").mapM parseCIter
+    let its := match its with
+      | [] => []
+      | it :: r => { it with gap := pre ++ it.gap } :: r
+    let s0 := Sub.init refs
+    let (sfin, tits) := transIters s0 its
+    let (ss, ops) := runScript cfg (init cfg) tits
+    let fin := ss.getLast?.getD (init cfg)
+    -- subscription operations the script delivered: those of the iterations that were run
+    let sops := subOpsOf ((its.take ss.length).flatMap CIter.events)
+    let sdone := subRun s0 sops
+    let _ := sfin
+    return jobj ([("snaps", jarr (ss.map snap)), ("flat", jarr (ops.map (jstr ∘ opName))),
+                  ("cflat", jarr ((weave s0 sops ops).map (jstr ∘ copName))),
+                  ("sub", subJson sdone), ("notif", jarr (notifLog s0 sops))] ++ summary fin)
+  | "cflat" =>
+    let cfg ← parseCfg j
+    let refs ← getNatList j "refs"
+    let ops ← (← getStrList j "ops").mapM parseCOp
+    let c := cexec cfg refs ops
+    return jobj ([("sub", subJson c.sub)] ++ summary c.eng)
   | "script" =>
     let cfg ← parseCfg j
     let its ← (← getArr j "iters").mapM parseIter
